@@ -597,7 +597,13 @@ func (e *Engine) indexAddr(fr *Frame, st *State, x *ssa.IndexAddr) Val {
 			return PtrV{Ty: x.Type(), Rid: b.Rid, Idx: e.elemIdx(b.Idx, i), Root: b.Root, NonNil: true}
 		}
 		if e.ar.scalarSortOrEmpty(at.Elem()) == "" {
-			unsupp("address of composite array element in struct")
+			// unrolled array of composite elements: only constant indices
+			c, isConst := constVal(i)
+			if !isConst || at.Len() > maxUnrolledArray {
+				unsupp("address of composite array element in struct (non-constant index)")
+			}
+			np.Path = append(append([]int{}, b.Path...), int(c.Int64()))
+			return np
 		}
 		np.ArrIdx = []Term{i}
 		return np
@@ -615,6 +621,9 @@ func (e *Engine) index(fr *Frame, st *State, x *ssa.Index) Val {
 		at := b.Ty.Underlying().(*types.Array)
 		e.oblige("index", fmt.Sprintf("index#%d", e.ordinal("index")), st.guard, And(a.idxLe(a.idxLit(0), i), a.idxLt(i, a.idxLit(at.Len()))), x.Pos())
 		if b.E != nil {
+			if c, ok := constVal(i); ok && c.IsInt64() && c.Int64() >= 0 && c.Int64() < int64(len(b.E)) {
+				return b.E[c.Int64()]
+			}
 			unsupp("index of explicit array")
 		}
 		return Scalar{Select(b.A, i), at.Elem()}
